@@ -35,7 +35,7 @@ def check(run, repo, world):
     mod = repo.mod(LOC)
     sel = selectors(run, repo, world)
     fn, cfg, ys, Q = method_cfg(world, MV, "write_raw")
-    run.floor("write_raw yields", len(ys), 9)
+    run.floor("write_raw yields", len(ys), 4)
     ynode = {y.node.id: y for y in ys}
     params = [a.arg for a in fn.args.args]
     for p in ("raw", "allow_short_write", "force_unlock", "ignore_feedback"):
@@ -129,6 +129,11 @@ def check(run, repo, world):
             if drop:
                 st = st - drop
         return st
+    if not wloops:
+        raise AnalysisError(
+            "write_raw: the writability check is not in a form the rule can "
+            "read (a loop over cls.locations testing location.type_ against "
+            "the writable memory types before the first command)")
     W = forward_worlds(cfg, transfer, edge)
     run.analysed["write_raw worlds at exit"] = len(W.at(cfg.exit))
 
@@ -445,39 +450,115 @@ def _check_value_to_raw(run, repo, world, mod):
     run.rule("R-MEMW-RAW", "value->raw conversions: declared width, big "
              "endian, declared signedness; MASK/TMASK only when supported; "
              "strings NUL-terminated when shorter")
+    from .. import pred, paths
     nv = world.cls(LOC + ".NumericValue")
     fn = nv.methods["value_to_raw"][1]
     Q = LOC + ".NumericValue.value_to_raw"
-    rets = [unparse(n.value) for n in ast.walk(fn) if isinstance(
-        n, ast.Return) and n.value is not None]
-    run.ob("R-MEMW-RAW", Q + "#to_bytes",
-           "value.to_bytes(len(cls.locations), 'big', signed=cls.signed)"
-           in rets, "numeric conversion must be value.to_bytes("
-           "len(cls.locations), 'big', signed=cls.signed); returns are %s"
-           % rets, where(mod, fn))
-    tests = [unparse(n.test) for n in ast.walk(fn) if isinstance(n, ast.If)]
-    run.ob("R-MEMW-RAW", Q + "#mask-literals",
-           "cls.mask_supported and value == 'MASK'" in tests and
-           "cls.tmask_supported and value == 'TMASK'" in tests and
-           "cls.mask" in rets and "cls.tmask" in rets,
-           "MASK/TMASK literals must map to cls.mask/cls.tmask only when "
-           "supported (tests: %s)" % tests, where(mod, fn))
-    run.ob("R-MEMW-RAW", Q + "#int-required",
-           "not isinstance(value, int)" in tests and any(
-               isinstance(n, ast.Raise) for n in ast.walk(fn)),
-           "a non-int must be refused", where(mod, fn))
+    ps = paths.summaries(fn)
+    # the numeric encoding: every returned to_bytes call
+    tb = []
+    for p_ in ps:
+        if p_.kind == "return" and isinstance(p_.expr, ast.Call) and \
+                isinstance(p_.expr.func, ast.Attribute) and \
+                p_.expr.func.attr == "to_bytes":
+            c = p_.expr
+            kw = {k.arg: unparse(k.value) for k in c.keywords}
+            args = [unparse(a) for a in c.args]
+            length = args[0] if args else kw.get("length")
+            order = args[1] if len(args) > 1 else kw.get("byteorder")
+            tb.append((unparse(c.func.value), length, order,
+                       kw.get("signed"), p_))
+    run.ob("R-MEMW-RAW", Q + "#to_bytes", bool(tb) and all(
+        t[:4] == ("value", "len(cls.locations)", "'big'", "cls.signed")
+        for t in tb),
+        "numeric conversion must be value.to_bytes(len(cls.locations), "
+        "'big', signed=cls.signed); found %s" % [t[:4] for t in tb],
+        where(mod, fn))
+
+    def conds(p_):
+        return {(unparse(t), b) for (t, b) in p_.conds}
+    mask = [p_ for p_ in ps if p_.kind == "return" and unparse(p_.expr) in (
+        "cls.mask", "cls.tmask")]
+    okm = {unparse(p_.expr) for p_ in mask} == {"cls.mask", "cls.tmask"}
+    for p_ in mask:
+        w = "MASK" if unparse(p_.expr) == "cls.mask" else "TMASK"
+        sup = "cls.%s_supported" % w.lower()
+        c = conds(p_)
+        okm = okm and (sup, True) in c and (
+            ("value == '%s'" % w, True) in c or
+            ("'%s' == value" % w, True) in c)
+    # and a supported literal never reaches the integer encoding
+    for t in tb:
+        c = conds(t[4])
+        for w in ("MASK", "TMASK"):
+            sup = "cls.%s_supported" % w.lower()
+            if not ((sup, False) in c or ("value == '%s'" % w, False) in c
+                    or ("'%s' == value" % w, False) in c):
+                okm = False
+    run.ob("R-MEMW-RAW", Q + "#mask-literals", okm,
+           "MASK/TMASK literals must map to cls.mask/cls.tmask exactly "
+           "when supported (paths: %s)" % ps, where(mod, fn))
+    okint = bool(tb) and all(("isinstance(value, int)", True) in conds(t[4])
+                             for t in tb) and any(
+        p_.kind == "raise" and ("isinstance(value, int)", False) in conds(p_)
+        for p_ in ps)
+    run.ob("R-MEMW-RAW", Q + "#int-required", okint,
+           "a non-int must be refused before the integer encoding",
+           where(mod, fn))
+    # ---- strings ------------------------------------------------------------
     sv = world.cls(LOC + ".StringValue")
     fn = sv.methods["value_to_raw"][1]
     Q = LOC + ".StringValue.value_to_raw"
-    src = [unparse(s) for s in ast.walk(fn) if isinstance(s, (ast.Assign,
-                                                              ast.If))]
-    ok = any(s.startswith("raw = value.encode('ascii')") for s in src) and \
-        any("len(raw) > len(cls.locations)" in s for s in src) and \
-        any("len(raw) < len(cls.locations)" in s and
-            "raw = raw + b'\\x00'" in s for s in src)
+    ps = paths.summaries(fn)
+    ENC = "value.encode('ascii')"
+    P = pred.Parser(pred.lin_of({"len(%s)" % ENC: "L",
+                                 "len(cls.locations)": "N",
+                                 "L": "L", "N": "N"}))
+
+    def region(sel_):
+        ds = []
+        for p_ in ps:
+            if sel_(p_):
+                t = ("and", [("atom", a) if b else ("not", ("atom", a))
+                             for (tst, b) in p_.conds
+                             for a in [None]] )
+                trees = []
+                for (tst, b) in p_.conds:
+                    tr = P.tree(tst)
+                    trees.append(tr if b else ("not", tr))
+                ds.append(pred.dnf(("and", trees)))
+        return pred.union(*ds) if ds else frozenset()
+
+    def f(src):
+        return P.dnf(ast.parse(src, mode="eval").body)
+    nul = ("%s + b'\\x00'" % ENC, "%s + bytes(1)" % ENC,
+           "%s + bytes([0])" % ENC)
+    regs = {
+        "too long -> ValueError": (region(
+            lambda p_: p_.kind == "raise" and paths.exc_name(
+                p_.expr) == "ValueError"), f("L > N")),
+        "exact fit -> the encoded string": (region(
+            lambda p_: p_.kind == "return" and unparse(p_.expr) == ENC),
+            f("L == N")),
+        "shorter -> one NUL appended": (region(
+            lambda p_: p_.kind == "return" and unparse(p_.expr) in nul),
+            f("L < N")),
+    }
+    other = [p_ for p_ in ps if not (
+        (p_.kind == "raise" and paths.exc_name(p_.expr) == "ValueError") or
+        (p_.kind == "return" and unparse(p_.expr) in (ENC,) + nul))]
+    ok = not other
+    why = ["unrecognised outcome %r" % o for o in other]
+    for name, (got, want) in regs.items():
+        e, w = pred.equivalent(got, want)
+        if not e:
+            ok = False
+            why.append("%s: happens when `%s`, required when `%s`" % (
+                name, pred.show(got), pred.show(want)))
     run.ob("R-MEMW-RAW", Q + "#nul-termination", ok,
            "strings must be ASCII-encoded, refused when too long and get "
-           "exactly one NUL when shorter", where(mod, fn))
+           "exactly one NUL when shorter: " + "; ".join(why), where(mod, fn),
+           sample={"rule": "R-MEMW-RAW", "paths": [repr(p_) for p_ in ps]})
     fnw = sv.methods["write"][1]
     okw = any(unparse(s) == "kwargs['allow_short_write'] = True"
               for s in fnw.body) and any(
